@@ -146,7 +146,7 @@ Section Step.
           unfold put_prep_ok in *. rewrite Hst. exact H.
       + apply (pi_unique s P).
     - (* Write *)
-      unfold write, write_gate. cbn [andb]. rewrite orb_false_r. pose proof (inv_prep s I i w p Hn Hp) as (_ & Hds & Hus & Hpos & Hle & Himp).
+      unfold write, write_gate, tomb_quirk. cbn [andb]. rewrite orb_false_r. pose proof (inv_prep s I i w p Hn Hp) as (_ & Hds & Hus & Hpos & Hle & Himp).
       destruct (p_cas p =? d_cas (st s)) eqn:Ecas.
       + apply N.eqb_eq in Ecas. destruct (Himp Ecas) as (Hgt & Hcas & nr & Htree & Hin).
         destruct (w_fail_write (w_op w)); cbn [finish_failed].
